@@ -17,7 +17,6 @@ package internal
 import (
 	"errors"
 	"iter"
-	"maps"
 	"net/http"
 	"net/textproto"
 	"strconv"
@@ -115,7 +114,27 @@ func directivesSeq2(s string) iter.Seq2[string, string] {
 // parseDirectives parses a string of cache directives and returns a map
 // where the keys are the directive names and the values are the arguments.
 func parseDirectives(s string) map[string]string {
-	return maps.Collect(directivesSeq2(s))
+	d := make(map[string]string)
+	for name, arg := range directivesSeq2(s) {
+		prev, seen := d[name]
+		switch {
+		case !seen:
+			d[name] = arg
+		case name == "no-cache":
+			// Repeated no-cache: the unqualified form (no field names) is the
+			// stronger one and wins; two field lists are joined.
+			switch {
+			case prev == "" || arg == "":
+				d[name] = ""
+			default:
+				d[name] = `"` + ParseQuotedString(prev) + "," + ParseQuotedString(arg) + `"`
+			}
+		default:
+			// RFC 9111 §4.2.1: when a directive occurs more than once, the first
+			// occurrence is used.
+		}
+	}
+	return d
 }
 
 func hasToken(d map[string]string, token string) bool {
